@@ -1,6 +1,14 @@
 #!/bin/sh
 # re-run every claimed quick check on /repo itself so that the committed evidence files are from the unchanged tree
 cd "$(dirname "$0")/.." || exit 1
+# function texts the contracts are validated against (a unit that cannot run on exactly these texts is a checker defect)
+python3-vt -c "
+import json, sys
+sys.path.insert(0, '.')
+from pyvc.report import function_hashes, BASELINE_HASHES
+json.dump(function_hashes('/repo'), open(BASELINE_HASHES, 'w'), indent=0, sort_keys=True)
+print('validated function texts:', BASELINE_HASHES)
+"
 for p in $(python3 -c "import sys; sys.path.insert(0,'.'); from props import registry; print(' '.join(sorted(registry.PROPS)))"); do
   VERIF_SEED=${VERIF_SEED:-1} timeout 1500 ./check "$p" --tier quick | grep -E "^C[0-9]+:|VIOLATION|UNDECIDED|CHECKER" | cut -c1-160
 done
